@@ -126,6 +126,31 @@ def sweep(ctx, n):
                         bad(f"interface:{cls}:part-and-whole", f"get{X}([{', '.join(type(e_).__name__ for e_ in entries)}], obs): entry {j_} differs from the same entry asked alone "
                             "(a collection listed together with one of its own members)", {"class": cls, "field": X, "entry": j_, "order": [type(e_).__name__ for e_ in entries]})
                         break
+            # a NESTED collection as observers, with a sub-collection listed before a sensor of the upper level: the sensor axis
+            # follows coll.sensors_all (pre-order) in every call form, and equals asking sensor by sensor
+            if i % 3 == 2:
+                sl = [magpy.Sensor(position=p_) for p_ in far_points(nps, 5, scale=lsc, lo=4, hi=8)]
+                shape = rng.choice(["a(bc)d", "(ab)c(d)e", "a((bc)d)e"])
+                if shape == "a(bc)d":
+                    oc, pre = magpy.Collection(sl[0], magpy.Collection(sl[1], sl[2]), sl[3]), sl[:4]
+                elif shape == "(ab)c(d)e":
+                    oc, pre = magpy.Collection(magpy.Collection(sl[0], sl[1]), sl[2], magpy.Collection(sl[3]), sl[4]), sl[:5]
+                else:
+                    oc, pre = magpy.Collection(sl[0], magpy.Collection(magpy.Collection(sl[1], sl[2]), sl[3]), sl[4]), sl[:5]
+                want = np.array([get(src, s_) for s_ in pre])
+                forms["nested-observers:" + shape] = forms.get("nested-observers:" + shape, 0) + 1
+                nest = {"getX(src,coll)": lambda: get(src, oc), "src.getX(coll)": lambda: getattr(src, "get" + X)(oc), "coll.getX(src)": lambda: getattr(oc, "get" + X)(src),
+                        "getX(src,sensors_all)": lambda: get(src, oc.sensors_all), "getX(src,[coll])": lambda: get(src, [oc])}
+                scn = float(np.max(np.abs(want))) + field_scale(src) * 1e-9
+                for name, f in nest.items():
+                    try:
+                        val = np.asarray(f())
+                    except Exception as e:
+                        bad(f"interface:{cls}:nested-observers:{name}", f"{name} raised {type(e).__name__}: {str(e)[:120]}", {"class": cls, "field": X, "shape": shape})
+                        continue
+                    if val.shape != want.shape or not np.allclose(val, want, rtol=1e-9, atol=1e-9 * scn):
+                        bad(f"interface:{cls}:nested-observers:{name}", f"{name} with a nested observer collection {shape}: the sensor axis is not the pre-order of the sensors asked one by one",
+                            {"class": cls, "field": X, "shape": shape, "form": name})
             # the SAME object asked again after it was edited (attribute assignment; for a mesh: faces repaired by
             # reorient_faces() after a first evaluation): every object-oriented form must follow the object's current
             # attributes, i.e. agree with the functional interface fed with the values read back from the object
